@@ -160,7 +160,7 @@ def rule_D(ck, an, units):
         early = None
         for n in f.nodes.values():
             if n['k'] == 'ret' and n.get('e') is not None and not f.in_lambda(n):
-                tup = [c for c in walk(n['e']) if c['k'] == 'call' and c.get('f') == 'std::make_tuple']
+                tup = [t_ for t_ in [ir.tuple_node(n['e'])] if t_ is not None]
                 if tup and unwrap(tup[0]['a'][0])['k'] == 'lit' and unwrap(tup[0]['a'][1])['k'] == 'ref':
                     early = n
         if early is None or early['i'] not in loc:
@@ -197,7 +197,7 @@ def rule_D(ck, an, units):
         rets = [n for n in f.returns() if n is not early]
         kd = None
         for r in rets:
-            tup = [c for c in walk(r['e']) if c['k'] == 'call' and c.get('f') == 'std::make_tuple']
+            tup = [t_ for t_ in [ir.tuple_node(r['e'])] if t_ is not None]
             if tup:
                 a0 = unwrap(tup[0]['a'][0])
                 if a0['k'] == 'ref':
